@@ -260,6 +260,22 @@ func paths(c *mon.Ctx, cs gen.Case, id string) {
 				ok = check("P3b-DecodeHeader+DecodeBody/bytes.Buffer-reused", f3, consumed, err) && ok
 			}
 		}
+		// P1c / P3c: the *bytes.Buffer holds exactly this frame (a write-one/read-one pipe, or the last frame of
+		// a batch): everything must have been consumed, nothing may stay behind for the next read
+		{
+			src := bytes.NewBuffer(append(make([]byte, 0, len(b)+8), b...))
+			f1, err := codec.DecodeFrame(src)
+			ok = check("P1c-DecodeFrame/bytes.Buffer-holding-exactly-the-frame", f1, len(b)-src.Len(), err) && ok
+			src = bytes.NewBuffer(append(make([]byte, 0, len(b)+8), b...))
+			if h, err := codec.DecodeHeader(src); err == nil {
+				body, err := codec.DecodeBody(h, src)
+				var f3 *frame.Frame
+				if err == nil {
+					f3 = &frame.Frame{Header: h, Body: body}
+				}
+				ok = check("P3c-DecodeHeader+DecodeBody/bytes.Buffer-holding-exactly-the-frame", f3, len(b)-src.Len(), err) && ok
+			}
+		}
 		// P2b / P4b: the source is a *bytes.Buffer that the caller re-uses after the raw decode (what a proxy
 		// does with a pooled buffer): the raw body must not alias the source
 		{
